@@ -17,7 +17,7 @@ RouteFails(c, o) ==
 Norm(c) == [fields |-> Set(c.fields), policy |-> c.policy, unknown |-> c.unknown, inst |-> c.inst]   \* JSON arrays -> sets
 FailsOf(r) == UNION {RouteFails(Norm(r.case), r.obs[j]) : j \in DOMAIN r.obs}
 Judge(r) == LET f == FailsOf(r) IN IF f = {} THEN TRUE ELSE PrintT(ToJson([i |-> r.i, fails |-> f]))
-TInit == l = 1 /\ sd = [fields |-> {}, policy |-> "NONE", inst |-> <<>>, unknown |-> FALSE, sp |-> DefSp, done |-> TRUE]
+TInit == l = 1 /\ sd = [fields |-> {}, policy |-> "NONE", tgt |-> "field", inst |-> <<>>, unknown |-> FALSE, sp |-> DefSp, done |-> TRUE]
 TNext == l <= Len(Trace) /\ Judge(Trace[l]) /\ l' = l + 1 /\ UNCHANGED sd
 TAccepted == TLCGet("stats").diameter - 1 = Len(Trace)
 =============================================================================
